@@ -1,4 +1,4 @@
-HOOK_COMMITS = []
+HOOK_COMMITS = ["6c051fd"]
 NOT_APPLICABLE = {}
 CHECKS = {
     "C04": {
@@ -42,5 +42,19 @@ CHECKS = {
         "design_ref": "DESIGN.md section 4 C20",
         "note": "Trusted: clvmr (an opcode is implemented iff the runner does not answer 'unimplemented operator'). The compiler clause is behavioural and one-directional.",
         "technique": "TLA+ spec (OpTables) + TLC evaluation of invariants over tables observed from the code (trace validation)",
+    },
+    "C05": {
+        "level": "model_checking",
+        "text": "CompileHistory.tla models the two pieces of state that outlive a compilation (global fresh-name counter, per-thread integer mode with its guard) with threads, failing jobs and process restarts; TLC checks Pure/ModeRestored over all interleavings and that four leak variants violate them; TLC-enumerated and boundary histories are executed in fresh processes and the observed outputs folded back into the model's out relation by Trace_CompileHistory.",
+        "design_ref": "DESIGN.md section 4 C05",
+        "note": "Trusted: nothing beyond equality of observed outputs. Synthesised helper names in symbol tables are compared up to their numeric suffix. Scheduling inside a concurrent phase is uncontrolled.",
+        "technique": "TLA+ spec (CompileHistory) + TLC interleavings/leak variants + replay of histories in fresh processes + trace validation",
+    },
+    "C19": {
+        "level": "model_checking",
+        "text": "AtomicWrite.tla models gentle_overwrite/atomic_write_file over a small POSIX-like file system with crash actions at every program point, concurrent writers and a reader; TLC checks TargetIntact/ReaderSeesComplete/SameContentSucceeds for five initial states and refutes the in-place variant; the real routine is run in child processes with aborts at every hook point, SIGKILL before every traced file-system call, concurrent writers/readers and through compile_clvm, and Trace_AtomicWrite checks every run against the model's writer.",
+        "design_ref": "DESIGN.md section 4 C19",
+        "note": "Trusted: kernel rename/O_EXCL semantics; strace for the syscall-level enumeration (hook-level enumeration does not need it). Needs the crash-point hook (cfg chialisp_verif).",
+        "technique": "TLA+ spec (AtomicWrite) + TLC all interleavings and crash points + fault injection at hook/syscall points + trace validation",
     },
 }
